@@ -79,6 +79,20 @@ DIRECTED = [
     {'prog': [_p('a', r='XK')], 'cfg': {'fexc': 'exact'}},
     {'prog': [_p('a', r='XK')], 'cfg': {'fexc': 'super'}},
     {'prog': [_p('a', r='BAD')], 'cfg': {'fexc': 'super'}},
+    # falsy values that are neither None nor a PhaseResult
+    {'prog': [_p('a', r='BAD0'), _p('b')], 'cfg': {}},
+    {'prog': [_p('a', r='BADF'), _p('b')], 'cfg': {}},
+    {'prog': [_p('a', r='BADS')], 'cfg': {}},
+    {'prog': [_p('a', r='BADL')], 'cfg': {'tdiag': 'pass'}},
+    {'prog': [['T', 't', [_p('a', r='BADF'), _p('b')]], _p('c')], 'cfg': {}},
+    {'prog': [['G', [_p('s')], [_p('m')], [_p('t', r='BAD0')]]], 'cfg': {}},
+    # always_fail diagnosers handing back one diagnosis / a list / a generator
+    {'prog': [_p('a', ds=[{'af': 1, 'shape': 'single', 'ds': [['D2', 0]]}])], 'cfg': {}},
+    {'prog': [_p('a', ds=[{'af': 1, 'shape': 'list', 'ds': [['D2', 0]]}])], 'cfg': {}},
+    {'prog': [_p('a', ds=[{'af': 1, 'shape': 'gen', 'ds': [['D2', 0], ['D3', 0]]}])],
+     'cfg': {}},
+    {'prog': [_p('a', ds=[{'af': 1, 'shape': 'tuple', 'ds': [['D2', 0]]}]), _p('b')],
+     'cfg': {'sof': 'opt'}},
     {'prog': [_p('a')], 'cfg': {'tdiag': 'fail'}},
     {'prog': [_p('a')], 'cfg': {'tdiag': 'raise'}},
     {'prog': [_p('a', r='K')], 'cfg': {'tdiag': 'fail'}},
